@@ -667,3 +667,128 @@ Qed.
 Lemma underflow_outside_protocol :
   (do p <- remove (insert_dep empty 1 2) 1; remove (insert_dep (fst p) 3 1) 2)%N = Crash 258.
 Proof. vm_compute. reflexivity. Qed.
+
+(* ---------- converse: a round that leaves the worklist unchanged made no progress ---------- *)
+Definition psize (t : topo) : nat :=
+  length t + list_sum (map (fun e => length (parents (snd e))) t).
+
+Lemma psize_set_present : forall t k d d0, get t k = Some d0 ->
+  psize (set t k d) + length (parents d0) = psize t + length (parents d).
+Proof.
+  unfold psize, list_sum. induction t as [|e r IH]; intros k d d0 G; cbn [get] in G; [discriminate|].
+  cbn [set]. destruct (N.eqb_spec (fst e) k) as [E|E].
+  - inversion G; subst. cbn [length map fold_right snd fst]. lia.
+  - specialize (IH _ d _ G). cbn [length map fold_right]. lia.
+Qed.
+
+Lemma psize_set_absent : forall t k d, get t k = None ->
+  psize (set t k d) = psize t + 1 + length (parents d).
+Proof.
+  unfold psize, list_sum. induction t as [|e r IH]; intros k d G; cbn [get] in G.
+  - cbn [set length map fold_right snd parents]. lia.
+  - cbn [set]. destruct (N.eqb_spec (fst e) k) as [E|E]; [discriminate|].
+    specialize (IH _ d G). cbn [length map fold_right]. lia.
+Qed.
+
+Lemma insert_dep_cases t p c :
+  (exists d, get t c = Some d /\ In p (parents d) /\ insert_dep t p c = t) \/
+  psize t < psize (insert_dep t p c).
+Proof.
+  unfold insert_dep. destruct (get t c) as [dc|] eqn:Gc.
+  - destruct (memb p (parents dc)) eqn:M.
+    + left. exists dc. split; [reflexivity|]. split; [apply memb_In; exact M|reflexivity].
+    + right. set (t1 := set t c (mkDeps (nc dc) (parents dc ++ [p]))).
+      assert (H1 : psize t1 = psize t + 1).
+      { pose proof (psize_set_present t c (mkDeps (nc dc) (parents dc ++ [p])) dc Gc) as H.
+        cbn [parents] in H. rewrite app_length in H. cbn [length] in H. unfold t1. lia. }
+      destruct (get t1 p) as [dp|] eqn:Gp.
+      * pose proof (psize_set_present t1 p (mkDeps (nc dp + 1) (parents dp)) dp Gp) as H.
+        cbn [parents] in H. lia.
+      * rewrite (psize_set_absent t1 p _ Gp). lia.
+  - right. set (t1 := set t c (mkDeps 0 [p])).
+    assert (H1 : psize t1 = psize t + 2).
+    { unfold t1. rewrite (psize_set_absent t c _ Gc). cbn [parents length]. lia. }
+    destruct (get t1 p) as [dp|] eqn:Gp.
+    + pose proof (psize_set_present t1 p (mkDeps (nc dp + 1) (parents dp)) dp Gp) as H.
+      cbn [parents] in H. lia.
+    + rewrite (psize_set_absent t1 p _ Gp). lia.
+Qed.
+
+Lemma insert_deps_cases : forall ds t p,
+  (insert_deps t p ds = t /\ forall c, In c ds -> exists d, get t c = Some d /\ In p (parents d)) \/
+  psize t < psize (insert_deps t p ds).
+Proof.
+  induction ds as [|c r IH]; intros t p; cbn [insert_deps fold_left].
+  - left. split; [reflexivity|intros c []].
+  - fold (insert_deps (insert_dep t p c) p r).
+    destruct (insert_dep_cases t p c) as [[d [G [Hp E]]]|Hlt].
+    + rewrite E. destruct (IH t p) as [[E2 H2]|H2].
+      * left. split; [exact E2|]. intros c' [Hc|Hc]; [subst; eauto|auto].
+      * right. exact H2.
+    + right. destruct (IH (insert_dep t p c) p) as [[E2 _]|H2]; [rewrite E2; exact Hlt|lia].
+Qed.
+
+Lemma register_round_cases : forall r t,
+  (forall e, In e r -> exists ds, snd e = Register ds) ->
+  exists t', run_round t r = Ok t' /\
+    ((t' = t /\ forall e, In e r -> stalled_event t e) \/ psize t < psize t').
+Proof.
+  induction r as [|e r IH]; intros t Hreg; cbn [run_round].
+  - exists t. split; [reflexivity|]. left. split; [reflexivity|intros e []].
+  - destruct (Hreg e (or_introl eq_refl)) as [ds Hs]. unfold apply_event. rewrite Hs. cbn [bind].
+    destruct (IH (insert_deps t (fst e) ds) (fun e' H => Hreg e' (or_intror H))) as [t' [Hr Hc]].
+    exists t'. split; [exact Hr|].
+    destruct (insert_deps_cases ds t (fst e)) as [[E Hst]|Hlt].
+    + rewrite E in *. destruct Hc as [[Et Hall]|Hc]; [|right; exact Hc].
+      left. split; [exact Et|]. intros e' [He'|He']; [|auto].
+      subst e'. exists ds. split; [exact Hs|exact Hst].
+    + right. destruct Hc as [[Et _]|Hc]; [subst; exact Hlt|lia].
+Qed.
+
+(* Under the protocol (actors pending at the start of the round), a round that leaves the
+   worklist unchanged consists only of items re-registering dependencies they already
+   registered: nothing completed, no new edge, no new item. *)
+Theorem unchanged_round_stalled : forall t s r,
+  Rep t s -> round_okb s r = true ->
+  (forall e, In e r -> In (fst e) (pending s)) ->
+  run_round t r = Ok t ->
+  forall e, In e r -> stalled_event t e.
+Proof.
+  intros t s r R Hok Hact Hrun.
+  assert (Hreg : forall e, In e r -> exists ds, snd e = Register ds).
+  { intros e He. destruct (snd e) as [|ds] eqn:Hs; [|eauto]. exfalso.
+    destruct (rep_round _ _ _ R Hok) as [t' [Hr' R']]. rewrite Hrun in Hr'. inversion Hr'; subst t'.
+    assert (Hx : In (fst e) (pending (a_round s r))).
+    { rewrite <- (R_keys _ _ R'), (R_keys _ _ R). apply Hact. exact He. }
+    apply (R_disj _ _ R' _ Hx). rewrite done_round. apply in_or_app. left. apply -> in_rev.
+    unfold completed_of_round. apply in_map. apply filter_In. split; [exact He|]. rewrite Hs. reflexivity. }
+  destruct (register_round_cases r t Hreg) as [t' [Hr' Hc]]. rewrite Hrun in Hr'. inversion Hr'; subst t'.
+  destruct Hc as [[_ H]|H]; [exact H|lia].
+Qed.
+
+Theorem round_unchanged_iff_stalled : forall t s r,
+  Rep t s -> round_okb s r = true ->
+  (forall e, In e r -> In (fst e) (pending s)) ->
+  (run_round t r = Ok t <-> forall e, In e r -> stalled_event t e).
+Proof.
+  intros t s r R Hok Hact. split.
+  - apply (unchanged_round_stalled t s r); assumption.
+  - apply stalled_round_fixpoint.
+Qed.
+
+(* the strong protocol gives the "actors pending" premise *)
+Lemma list_eqb_eq : forall a b, list_eqb a b = true -> a = b.
+Proof.
+  induction a as [|x a IH]; destruct b as [|y b]; cbn [list_eqb]; try discriminate; [reflexivity|].
+  intros H. apply andb_true_iff in H. destruct H as [H1 H2]. apply N.eqb_eq in H1. f_equal; auto.
+Qed.
+
+Lemma actors_ok_pending s r : actors_okb s r = true -> forall e, In e r -> In (fst e) (pending s).
+Proof.
+  unfold actors_okb. intros H e He. assert (Hin : In (fst e) (map fst r)) by (apply in_map; exact He).
+  destruct (ready s) as [|a l] eqn:Rd.
+  - unfold same_setb in H. apply andb_true_iff in H. destruct H as [H _].
+    apply andb_true_iff in H. destruct H as [_ H]. rewrite forallb_forall in H.
+    apply memb_In. apply H. exact Hin.
+  - apply list_eqb_eq in H. rewrite H, <- Rd in Hin. unfold ready in Hin. apply filter_In in Hin. tauto.
+Qed.
